@@ -432,6 +432,34 @@ theorem poisson_nonpos_mean (u01 : U01 G) (hu : Unit01 u01) (exp : Rat → Rat) 
 example : samplePoisson (constU (1 / 5)) expS (fun x => x) 1 3 (0 + 1) 0 (-3) = some (0, 1) :=
   poisson_nonpos_mean (constU (1 / 5)) (fun g => by simp [constU]; norm_num) expS 1 (-3) 3 0 0 (by norm_num)
 
+/-! ## Inverse transform sampling: the root accuracy follows the width of the domain, not its position -/
+
+/-- the accuracy requested from the root finder is invariant under a translation of the domain
+    (a tolerance relative to `|xMin| + |xMax|` is not: `itransTol_not_magnitude`) -/
+theorem itransTol_translation (xMin xMax c : Rat) : itransTol (xMin + c) (xMax + c) = itransTol xMin xMax := by
+  unfold itransTol; ring
+
+theorem itransTol_scale (xMin xMax k : Rat) : itransTol (k * xMin) (k * xMax) = k * itransTol xMin xMax := by
+  unfold itransTol; ring
+
+/-- on `[10^9, 10^9 + 1]` the coded tolerance is `10^-10`; a tolerance `10^-10 (|xMin| + |xMax|)` would exceed the
+    tenth of the width (so a root finder could stop after one step) -/
+theorem itransTol_not_magnitude :
+    itransTol (10 ^ 9) (10 ^ 9 + 1) = 1 / 10 ^ 10 ∧ (1 / 10 ^ 10 : Rat) * (10 ^ 9 + (10 ^ 9 + 1)) > 1 / 10 := by
+  unfold itransTol; constructor <;> norm_num
+
+/-- exactly one uniform is consumed, whatever the root finder and the CDF -/
+theorem inverseTransform_draws (u01 : U01 G) (findRoot : (Rat → Rat) → Rat → Rat → Rat → Rat) (cdf : Rat → Rat) (g : G) (a b : Rat) :
+    (inverseTransform u01 findRoot cdf g a b).2 = adv u01 1 g := rfl
+
+/-- if the root finder meets its contract (returns a point within the requested accuracy of a point where the function
+    vanishes) the sample is within `1e-10 (xMax - xMin)` of a point whose CDF value is the uniform drawn -/
+theorem inverseTransform_accuracy (u01 : U01 G) (findRoot : (Rat → Rat) → Rat → Rat → Rat → Rat) (cdf : Rat → Rat) (g : G) (a b : Rat)
+    (hroot : ∀ f x0 x1 acc, ∃ r, f r = 0 ∧ |findRoot f x0 x1 acc - r| ≤ acc) :
+    ∃ r, cdf r = (sampleUniform u01 g 0 1).1 ∧ |(inverseTransform u01 findRoot cdf g a b).1 - r| ≤ itransTol a b := by
+  obtain ⟨r, h0, h1⟩ := hroot (fun x => (sampleUniform u01 g 0 1).1 - cdf x) a b (itransTol a b)
+  exact ⟨r, by linarith, h1⟩
+
 /-- every sampler is a function `G → Out × G` of the passed generator: equal states give equal
     outputs and equal states afterwards (true by construction of the model; that the C++ has this
     shape is the class-D correspondence check) -/
